@@ -70,6 +70,23 @@ CHECKS.update({
         note="Requested times never exactly half-way; dt > 0; partition counts bounded (<= 3 in <= 3 cells)."),
 })
 
+
+CHECKS.update({
+    "C07": dict(level="model_checking", design="3/C07",
+        text="The real py_simulate_model, wrappers, interface constructors, queue setup, result classes and py_get_dataframe are "
+             "executed for every one of the 192 option combinations (x model shapes) over symbolic uniform grids, states and "
+             "volumes; path outcomes are checked: result or ValueError only, right simulator, dt installed, time axis equal to "
+             "the request, species columns in model order, row count, volume column.",
+        note="Event loops replaced by contracts whose exit obligations are discharged in the same check; odeint and pandas are "
+             "stubs; the first-row clause rests on the loop step relation (C05/C09)."),
+    "C18": dict(level="model_checking", design="3/C18",
+        text="compute_J / compute_Zj and their entry points are executed with the right-hand side replaced by a polynomial with "
+             "arbitrary symbolic coefficients: each of the four difference schemes is proven exact on its exactness class and "
+             "equal to derivative + leading error term one degree above; orientation J[i,j]=df_i/dx_j; rules applied before the "
+             "derivative; parameters restored after every path.",
+        note="np.round(.,10) modelled as identity; step h = 0.01 as in the code; n <= 3."),
+})
+
 NOT_YET = "check not built yet in this revision of /verif (work in progress; see DESIGN.md section 3 for the planned obligations)"
 
 
